@@ -17,6 +17,8 @@ def opname(op):
     if op[0] == "remove":
         if op[1] and op[1][0][0] == "inner":
             return "remove(block held inside a duplicate wrapper)"
+        if op[1] and op[1][0][0] == "eq":
+            return "remove(equal copy of a held block)"
         return f"remove({'list' if op[2] else 'block'})"
     return f"replace(fail_on_duplicate_key={'default' if op[3] is None else op[3]})"
 
@@ -70,7 +72,13 @@ def run(P: Program, rep: Report):
                        "only through isinstance, so two keys and one block per class and key-collision pattern represent all")
     key_discipline(P, rep, "C08.R0")
     rep.rule("C08.R1", "ownership: the block list and the two key indexes are written only inside Library")
-    priv = ("_blocks", "_entries_by_key", "_strings_by_key")
+    # the private state: what Library.__init__ stores on the instance under an underscore name (whatever the names are)
+    lib0 = P.cls("library", "Library")
+    init0 = lib0.methods.get("__init__")
+    priv = tuple(sorted({t.attr for n in (ast.walk(init0.node) if init0 is not None else []) if isinstance(n, (ast.Assign, ast.AnnAssign))
+                         for t in (n.targets if isinstance(n, ast.Assign) else [n.target])
+                         if isinstance(t, ast.Attribute) and isinstance(t.value, ast.Name) and t.value.id == "self" and t.attr.startswith("_")}))
+    rep.require_count("C08.R1", "private attributes set up by Library.__init__", len(priv), 1)
     ext = 0
     for fi in P.all_funcs:
         if fi.cls is not None and fi.cls.name == "Library":
@@ -125,7 +133,7 @@ def run(P: Program, rep: Report):
                 bad = [v for v in VIEWS if o["after"][v] != o["ref_after"][v]]
                 if bad:
                     v = bad[0]
-                    fails.setdefault(("C08.R2", f"{name}:view-{v}"), (hs, f"after {name} (accepted as removal of its duplicate wrapper): {v} = {o['after'][v]!r}, contract {o['ref_after'][v]!r}", o))
+                    fails.setdefault(("C08.R2", f"{name}:view-{v}"), (hs, f"after {name} (accepted as removal of the block it stands for): {v} = {o['after'][v]!r}, contract {o['ref_after'][v]!r}", o))
                 else:
                     okc["R2"] += 1
             else:
